@@ -224,7 +224,10 @@ theorem fltE_core (f : Field) (dec : Nat) (fmt c : Char) (hk : f.kind = .flt dec
     (hr : pyRound (.fin neg m e) ((dec : Int) - floorLog10 m e) = some r)
     (hfit : (fmtE r dec (fmt == 'E')).length ≤ f.size) :
     ∃ t, renderText f (.dbl (.fin neg m e)) = .ok t ∧ t.length = f.size ∧
-      parseText f.kind t = some (.dbl r) ∧ renderText f (.dbl r) = .ok t := by
+      parseText f.kind t = some (.dbl r) ∧ renderText f (.dbl r) = .ok t ∧
+      ∃ k ip fp eneg exd, (∀ x ∈ ip ++ fp ++ exd, x.isDigit = true) ∧
+        t = List.replicate k ' ' ++
+          subst1 '.' c (bodyE neg ip fp (if (fmt == 'E') = true then 'E' else 'e') eneg exd) := by
   obtain ⟨hk1, hk2⟩ := kbounds m e hwf
   have hm0 : m ≠ 0 := by
     intro h0; subst h0
@@ -257,7 +260,7 @@ theorem fltE_core (f : Field) (dec : Nat) (fmt c : Char) (hk : f.kind = .flt dec
       · exact hc5
     have hrend := renderText_fltE f dec fmt c hk hfmt neg m e hm0 (.fin neg m' e')
       (by rw [pyRound_nd neg m e _ (by omega) (by omega), hnd]; rfl) hfit
-    refine ⟨rjust (subst1 '.' c (fmtE (.fin neg m' e') dec (fmt == 'E'))) f.size ' ', hrend, ?_, ?_, ?_⟩
+    refine ⟨rjust (subst1 '.' c (fmtE (.fin neg m' e') dec (fmt == 'E'))) f.size ' ', hrend, ?_, ?_, ?_, ?_⟩
     · simp only [rjust, List.length_append, List.length_replicate, subst1_length]; omega
     · rw [hk]
       simp only [parseText, replace_single, rjust, subst1_length]
@@ -286,5 +289,9 @@ theorem fltE_core (f : Field) (dec : Nat) (fmt c : Char) (hk : f.kind = .flt dec
       rw [pyRound_nd neg m' e' _ (by omega) (by omega)]
       unfold nd53 at hself
       rw [hself]; rfl
+    · refine ⟨f.size - (subst1 '.' c (fmtE (.fin neg m' e') dec (fmt == 'E'))).length,
+        (natDigits (sci m' e' dec).1).take 1, (natDigits (sci m' e' dec).1).drop 1,
+        decide ((sci m' e' dec).2 < 0), expDigits (sci m' e' dec).2, hdig, ?_⟩
+      rw [← hshape]; rfl
 
 end Proofs.FloatELaw
